@@ -66,18 +66,28 @@ def holds(S, v, negated, d):
     return (val in S.designated) == (True if d is None else d)
 
 
-def run_case(name, S, kind, seq, out, desig):
-    """seq: ordered list of (negated, d, world)."""
+def run_case(name, S, kind, seq, out, desig, form='node'):
+    """seq: ordered list of (negated, d, world). form: literals put on the branch as node objects ('node') or as the
+    plain mappings Branch.append also accepts ('mapping')."""
     s = KINDS[kind]
     tab = tabs.new_tableau(name)
     br = tab.branch()
     for n, d, w in seq:
         if br.closed:
             break
-        br.append(tabs.mk_node(('S', syn.neg(s) if n else s, d, w)))
+        if form == 'mapping':
+            m = dict(sentence=syn.to_lib(syn.neg(s) if n else s))
+            if d is not None:
+                m['designated'] = d
+            if w is not None:
+                m['world'] = w
+            br.append(m)
+            out.count('literals_appended_as_mapping')
+        else:
+            br.append(tabs.mk_node(('S', syn.neg(s) if n else s, d, w)))
     tab.build()
     if len(tab) != 1:
-        out.violation('literal-set-branched', dict(logic=name, kind=kind, seq=seq),
+        out.violation('literal-set-branched', dict(logic=name, kind=kind, seq=seq, form=form),
                       dict(diag='literals-expanded', logic=name, kind=kind),
                       f'{name}: literal set produced {len(tab)} branches; history={[e.rule.name for e in tab.history]}')
         return
@@ -85,7 +95,7 @@ def run_case(name, S, kind, seq, out, desig):
     worlds = sorted({w for _, _, w in seq}, key=lambda w: -1 if w is None else w)
     unsat_worlds = [w for w in worlds if not satisfiable(S, kind, [(n, d) for n, d, ww in seq if ww == w])]
     expected = bool(unsat_worlds)
-    key = (name, kind, tuple(seq))
+    key = (name, kind, tuple(seq), form)
     out.case(key, nontrivial=len(seq) >= 2)
     if closed and expected:
         out.count('closed_expected_and_observed')
@@ -93,7 +103,7 @@ def run_case(name, S, kind, seq, out, desig):
         lits = sorted({(n, d) for n, d, _ in seq})
         out.violation(
             'closure-mismatch',
-            dict(logic=name, kind=kind, seq=[list(q) for q in seq], closed=closed, expected_closed=expected,
+            dict(logic=name, kind=kind, form=form, seq=[list(q) for q in seq], closed=closed, expected_closed=expected,
                  history=[e.rule.name for e in tab.history]),
             dict(diag='closed-but-satisfiable' if closed else 'open-but-unsatisfiable',
                  family=S.base_name, classical=S.classical, kind=kind,
@@ -110,7 +120,7 @@ def run_case(name, S, kind, seq, out, desig):
         model = lib.logic(name).Model()
         model.read_branch(br)
     except Exception as e:
-        out.violation('model-read-raises', dict(logic=name, kind=kind, seq=[list(q) for q in seq]),
+        out.violation('model-read-raises', dict(logic=name, kind=kind, form=form, seq=[list(q) for q in seq]),
                       dict(diag='read_branch-raises', family=S.base_name, kind=kind, error=type(e).__name__),
                       f'{name}: read_branch raised {e!r}', size=len(seq))
         return
@@ -122,7 +132,7 @@ def run_case(name, S, kind, seq, out, desig):
         bad = [(n, d) for n, d, ww in seq if ww == w and not holds(S, v, n, d)]
         if bad:
             out.violation(
-                'model-value', dict(logic=name, kind=kind, seq=[list(q) for q in seq], world=w, value=v),
+                'model-value', dict(logic=name, kind=kind, form=form, seq=[list(q) for q in seq], world=w, value=v),
                 dict(diag='read-value-violates-literal', family=S.base_name, kind=kind,
                      literals=sorted(f"{'~' if n else ''}s{ {True: '+', False: '-', None: ''}[d] }" for n, d, ww in seq if ww == w),
                      value=v),
@@ -156,6 +166,8 @@ def run_unit(unit, out, tier, seed):
                     for ws in wassigns:
                         seq = [(n, d, w) for (n, d), w in zip(order, ws)]
                         run_case(name, S, kind, seq, out, desig)
+                        if tier == 'thorough' or k <= 2 or n_cases % 3 == 0:
+                            run_case(name, S, kind, seq, out, desig, form='mapping')
                         n_cases += 1
                         if n_cases % 400 == 1:
                             out.sample(dict(logic=name, kind=kind,
@@ -168,5 +180,5 @@ def replay(wit):
     out = Out()
     c = wit['case']
     S = rsem.sem(c['logic'])
-    run_case(c['logic'], S, c['kind'], [tuple(q) for q in c['seq']], out, None)
+    run_case(c['logic'], S, c['kind'], [tuple(q) for q in c['seq']], out, None, form=c.get('form', 'node'))
     return dict(violates=bool(out.violations), detail=[v['message'] for v in out.violations])
